@@ -28,6 +28,9 @@ Run(e, m) ==
     [] e.op = "exists" -> BM!ExistsM(m, a[1], e.v)
     [] e.op = "compose" -> BM!ComposeM(m, a[1], e.v, a[2])
     [] e.op = "cnf" -> BM!CompileCnfM(m, e.cnf)
+    [] e.op = "and_lst" -> BM!AndLstM(m, BM!T, a)
+    [] e.op = "or_lst" -> BM!OrLstM(m, BM!F, a)
+    [] e.op = "cond_model" -> BM!CondModelM(m, a[1], {e.lits[i] : i \in 1 .. Len(e.lits)})
 Expected(e) ==
   LET a == e.args
       D(i) == BM!Den(a[i]) IN
@@ -40,6 +43,9 @@ Expected(e) ==
     [] e.op = "exists" -> BM!SExists(D(1), e.v)
     [] e.op = "compose" -> BM!SExists(BM!SIff(BM!SLit(e.v), D(2)) \cap D(1), e.v)
     [] e.op = "cnf" -> BM!SCnf(e.cnf)
+    [] e.op = "and_lst" -> {x \in BM!Assign : \A i \in 1 .. Len(a) : x \in D(i)}
+    [] e.op = "or_lst" -> {x \in BM!Assign : \E i \in 1 .. Len(a) : x \in D(i)}
+    [] e.op = "cond_model" -> BM!SCondLits(D(1), e.lits)
 
 Init == l = 2 /\ tbl = {} /\ cache = {} /\ ok = TRUE /\ calls = 0
 Reset(e) == /\ tbl' = {<<0, v, BM!F, BM!T>> : v \in 0 .. (Rec[1].nv - 1)}
